@@ -25,7 +25,7 @@ def aflatCase : P String := do
   let script : Script := fun cb k => match alookup cb cs with
     | some o => { out := o }
     | none => mkScript es cb k
-  match Async.runHistory script kd c qm qmax fuel h (St.init c models) with
+  match Async.runHistoryP script kd c qm qmax fuel h (St.init c models) with
   | none => pure "oof"
   | some s =>
     let st := s.mstate.flatMap fun (m, v) => [m, v]
